@@ -155,14 +155,14 @@ TEXT = {
   level='Machine-checked theorems (Coq). LEADER COMPLETENESS OVER ALL RUNS (C03_leader_completeness_all_runs): in every reachable state of the cluster transition system with commitment (Model/ClusterCommit.v) a leader whose term is at least the term of a running server holds, at the same index, every entry that server knows committed - committed entries are on every later leader and are never re-assigned (classical argument: matches of the leader\'s own term on a majority, votes of a majority, up-to-date check, Log Matching; invariant with ghost records, strong induction on terms); same side conditions as C02. PARTIAL beyond that (snapshots, InstallSnapshot, membership changes, RestoreCommittedLogs, client acknowledgements are monitored). PER LEADERSHIP / PER SERVER: a new leader\'s commitment starts above everything its log held at election, so for ANY sequence of match reports its commit index is 0 or above the '
         'election-time last index (no old-term entry committed by counting, Figure 8 - C03_commit_only_above_election_last_index, from C05_commit_sound); votes are cast only after the log up-to-date check over any history with crashes (C06); followers delete only from the first conflicting index (C04); '
         'the leader counts itself only after its own StoreLogs succeeded. What lies outside the composed system is checked on real histories (every Leader transition vs everything acknowledged/applied before; replaced/deleted applied entries). '
-        'Tie: leader sequences on real servers diffed against the leader model (start index, commit steps), node sequences, cluster histories. COMPOSED MODEL WITH COMMITMENT (Model/ClusterCommit.v: answers travelling back, nextIndex per follower, one outstanding call, commitment.match, leader-loop commit, FSM apply) tied by component 102: scripts on REAL clusters in which the real replicateTo runs (driven by the script, blocked in the transport), requests are executed by the followers\' real handlers at any later time, and after every op commit index, applied index, FSM content, full logs and every leader\'s nextIndex are diffed against the model; monitors on the real state: FSM histories prefix-equal, committed entries equal across servers, leaders hold what others know committed. The proof attempt over this model found defect F11 (a follower committed over log entries the request did not vouch for; replayed on real servers, fixed in /repo a641560).',
+        'Tie: leader sequences on real servers diffed against the leader model (start index, commit steps), node sequences, cluster histories. COMPOSED MODEL WITH COMMITMENT (Model/ClusterCommit.v: answers travelling back, nextIndex per follower, one outstanding call, commitment.match, leader-loop commit, FSM apply) tied by component 102: scripts on REAL clusters in which the real replicateTo runs (driven by the script, blocked in the transport), requests are executed by the followers\' real handlers at any later time, and after every op commit index, applied index, FSM content, full logs and every leader\'s nextIndex are diffed against the model; monitors on the real state: FSM histories prefix-equal, committed entries equal across servers, leaders hold what others know committed. The proof attempt over this model found defect F11 (a follower committed over log entries the request did not vouch for; replayed on real servers, fixed in /repo a641560). DURABLE ACKNOWLEDGEMENTS (C03_acknowledged_entries_are_permanent): an entry acknowledged by a leader of term T at any point of a run is held at its index by every later leader of a term >= T and by every server that knows the index committed.',
   note='Trusted: Coq kernel; harness; sampled schedules for the cluster part. Operator overrides (RecoverCluster, Restore) are outside the property and not used in these scenarios.',
   technique='Coq proof (cluster-level invariant with ghost leaderships/acceptances/votes, induction on terms; commitment invariant instantiated at setupLeaderState) + differential commitment scripts on real clusters + leader sequences + monitored real-cluster histories',
  ),
  'C08': dict(
   level='PARTIAL. Machine-checked theorems (Coq) over the leader model: for ANY batch mixing commands, barriers and configurations with or without futures, each future receives the FSM response of ITS OWN entry at that entry\'s index (C08_response_pairing, '
         'the shouldSend counter logic of applyBatch); dispatch assigns consecutive indices above the last index in call order; only futures at or below the commit index are answered. Cross-server exactly-once and the definite-failure clauses need the global theorems and are checked on real histories. '
-        'Tie: leader sequences with plain and batching FSM on real servers diffed against the model; cluster histories with concurrent clients, slow FSM and barriers.',
+        'Tie: leader sequences with plain and batching FSM on real servers diffed against the model; cluster histories with concurrent clients, slow FSM and barriers. CLUSTER LEVEL (Model/ClusterCommit.v, all runs): a future answered without error means the entry is committed at exactly that index on the answering leader (C08_acknowledged_means_committed_there) and stays the entry of that index on every later leader and every server that learns the index committed (C03_acknowledged_entries_are_permanent); tied by component 102, which observes the real Apply futures.',
   note='Trusted: Coq kernel; harness FSM (response = payload*7+3) ; Go select semantics for ErrEnqueueTimeout.',
   technique='Coq proof (response pairing by induction over the batch) + differential leader sequences + monitored histories with slow FSM',
  ),
